@@ -747,6 +747,9 @@ impl Session {
                 break;
             }
         }
+        // (the session state at the moment the peer went away, for history checks: is work being abandoned?)
+        let sn = self.snap();
+        self.ev(EvKind::Ctl(format!("state-at-close txn={} copy={} batch_open={}", sn.txn as char, sn.copy, sn.batch_open)));
         self.ev(EvKind::Close { by_terminate });
     }
 
